@@ -19,7 +19,7 @@ func init() {
 				"(HOST) transportResolver.host - the name the TLS layer verifies (C17.SNI) - derives only from the request URL's host (URL.Host, its SplitHostPort host part, or URL.Hostname()), never from the Host header field or a resolution result; " +
 				"(AUTH) req.Host is filled from URL.Host, only when empty, before URL.Host is overwritten, and the host/port split also happens before; " +
 				"(POOL) the value written to URL.Host (the connection-pool key) is a Sprintf whose three arguments are the port, the scheme and the host, separated by literal text; " +
-				"(UPGRADE) Scheme becomes https only under {the origin has HTTPS records, scheme is http}, on the clone; the resolver folds http to https when it builds the HTTPS query name (the C14.N2 rules), so the origin's records are found for http URLs on any port; " +
+				"(UPGRADE) Scheme becomes https only under {the origin has HTTPS records, scheme is http}, on the clone, and always then (with both assumed, no way to a return of RoundTrip goes round the store - a port in the URL, say, does not exempt it); the resolver folds http to https when it builds the HTTPS query name (the C14.N2 rules), so the origin's records are found for http URLs on any port; " +
 				"(H3) useH3 becomes true only under {HTTP3Transport != nil, service-mode record, ALPN contains h3}; the scan moves on to a less-preferred record only past an alias record or a record that offers none of h3, h2, http/1.1 and no default ALPN; the h3 branch gives the HTTP/3 round-tripper a result filtered with {h3}/must-have, the other branch one filtered with {h2, http/1.1}; in the filter every 'keep' is under Priority != 0 and one of the three compatibility conditions; " +
 				"(BIND) every response-carrying return of RoundTrip is dominated by the store of the caller's request into that response's Request field, and nothing is stored through the caller's request (all writes go to its Clone). " +
 				"Not decided: what net/http does with the rewritten request (pooling, Host header emission) - library behaviour, trusted.",
@@ -219,6 +219,31 @@ func c19Rules(p *core.Prog, r *core.Run) {
 			}
 		}
 		r.Check("C19.UPGRADE", "scheme-upgrade", onClone && v.Name == `"https"` && hasRR && isHTTP, p.InstrPos(st), "http is upgraded to https only when the origin publishes HTTPS records (%v) and the scheme is http (%v), on the clone (%v)", hasRR, isHTTP, onClone)
+		// ... and always then (a port in the URL, say, does not exempt it: the
+		// records found are those of that very port, RFC 9460 9.5)
+		// decided on the function's graph with both conditions assumed: every
+		// return that the two tests lead to lies behind the store
+		fn := st.Parent()
+		cfg, hits := pruneBy(p, fn, []assumption{
+			cmpAssume("records", ">", func(e *core.Expr) bool {
+				return e.Op == "call" && e.Name == "len" && e.Args[0].Op == "field" && e.Args[0].Name == "HTTPS"
+			}, isConstName("0")),
+			cmpAssume("http", "==", func(e *core.Expr) bool { return e.Op == "field" && e.Name == "Scheme" }, isConstName(`"http"`)),
+		})
+		always := len(hits["records"]) > 0 && len(hits["http"]) > 0 && cfg.Live(st.Block())
+		skipped := ""
+		if always {
+			from := cfg.ReachableFrom(hits["http"][0].Block())
+			from2 := cfg.ReachableFrom(hits["records"][0].Block())
+			for _, ret := range core.Returns(fn) {
+				rb := ret.Block()
+				if cfg.Live(rb) && from[rb] && from2[rb] && !cfg.Dominates(st.Block(), rb) {
+					always = false
+					skipped = p.InstrPos(ret)
+				}
+			}
+		}
+		r.Check("C19.UPGRADE", "scheme-upgrade-always", always, p.InstrPos(st), "the upgrade happens whenever the origin publishes HTTPS records and the scheme is http: with both assumed, no way to a return goes round the store (one does: %q)", skipped)
 	}
 	r.Floor("C19.UPGRADE", 1)
 	// the records that trigger the upgrade are found only if an http URL asks for
